@@ -36,7 +36,7 @@ type ruleSet struct {
 
 func smtpRule(g *vh.Gen, key string, rs *ruleSet) {
 	var body, label string
-	switch g.Intn(5) {
+	switch g.Intn(6) {
 	case 0:
 		body, label = "return smtp.allow()", "A"
 	case 1:
@@ -51,6 +51,15 @@ func smtpRule(g *vh.Gen, key string, rs *ruleSet) {
 			body, label = "return smtp.deny()", "D550:"+vh.HS("Mail denied by policy")
 		default:
 			body, label = "return smtp.deny(452)", "D452:"+vh.HS("Mail denied by policy")
+		}
+	case 3: // several answers are built, the FIRST one is returned: each answer must be its own value
+		switch g.Intn(3) {
+		case 0:
+			body, label = "local a = smtp.deny(451, \"greylisted\")\n local b = smtp.deny(554, \"blocked\")\n return a", "D451:"+vh.HS("greylisted")
+		case 1:
+			body, label = "local a = smtp.allow()\n local b = smtp.deny(550, \"x\")\n return a", "A"
+		default:
+			body, label = "local a = smtp.defer()\n local b = smtp.deny(550, \"x\")\n local c = smtp.allow()\n return a", "F"
 		}
 	default:
 		body, label = g.Pick(noAnswer...), "N"
